@@ -232,3 +232,35 @@ Definition l_step (fixed : bool) (E : list simplex) (o : lop) : list simplex :=
   | LOp (Con x y) k => l_contract E x y k
   | LClean v => l_clean E v
   end.
+
+(* the abstract operation a lazy step stands for (cleaning stands for nothing) *)
+Definition l_spec (K : cplx) (o : lop) : cplx :=
+  match o with LOp o k => spec_step K o (Some k) | LClean _ => K end.
+(* admissible returned survivor of a lazy contraction *)
+Definition l_ok (E : list simplex) (o : lop) : bool :=
+  match o with LOp (Con x y) k => l_survivor_ok E x y k | _ => true end.
+(* lazy model and specification in lockstep; the flag says that every contraction returned an admissible survivor *)
+Fixpoint l_run_from (E : list simplex) (K : cplx) (h : list lop) : list simplex * cplx * bool :=
+  match h with
+  | [] => (E, K, true)
+  | o :: r => let '(E', K', b) := l_run_from (l_step true E o) (l_spec K o) r in (E', K', l_ok E o && b)
+  end.
+Definition l_run (h : list lop) := l_run_from [] spec_empty h.
+
+(* eager and lazy models on the same history (cleaning steps only touch the lazy one); the flag also says that the two
+   contractions kept the same survivor *)
+Definition same_ret (ret : option Z) (o : lop) : bool :=
+  match o with
+  | LOp (Con _ _) k => match ret with Some k' => Z.eqb k' k | None => false end
+  | _ => true
+  end.
+Fixpoint both_run_from (T : state) (E : list simplex) (h : list lop) : state * list simplex * bool :=
+  match h with
+  | [] => (T, E, true)
+  | LClean v :: r => both_run_from T (l_clean E v) r
+  | LOp o k :: r =>
+    let (T', ret) := step T o in
+    let '(T2, E2, b) := both_run_from T' (l_step true E (LOp o k)) r in
+    (T2, E2, l_ok E (LOp o k) && same_ret ret (LOp o k) && b)
+  end.
+Definition both_run (h : list lop) := both_run_from [] [] h.
